@@ -452,6 +452,25 @@ Fixpoint insert_verdict (s : state) (b : Z) (js : list job) (seen : list Z) : Z 
            end
   end.
 
+(* validation of a job spec against its update (front_end._create_jobs): the relative id lies in the
+   update's reserved range; in-update parents are earlier jobs of the update; absolute parents are earlier
+   jobs, and those in earlier updates exist and belong to a committed update *)
+Definition spec_ok (s : state) (b : Z) (up : update) (x : jspec) : bool :=
+  let sj := u_start_job up in
+  (1 <=? js_id x) && (js_id x <=? u_njobs up)
+  && forallb (fun p => (1 <=? p) && (p <? js_id x)) (js_parents_rel x)
+  && forallb (fun p => (1 <=? p) && (p <? js_id x + sj - 1)
+                       && ((sj <=? p) || match find_job s b p with
+                                         | Some y => match find_update s b (j_update y) with
+                                                     | Some uy => u_committed uy | None => false end
+                                         | None => false end)) (js_parents_abs x).
+
+Fixpoint contiguous (l : list Z) : bool :=
+  match l with
+  | x :: ((y :: _) as r) => (y =? x + 1) && contiguous r
+  | _ => true
+  end.
+
 Definition do_create_jobs (s : state) (b u user : Z) (jss : list jspec) : state * res :=
   match find_update s b u, find_batch s b with
   | Some up, Some bt =>
@@ -460,6 +479,8 @@ Definition do_create_jobs (s : state) (b u user : Z) (jss : list jspec) : state 
       else
         let js := map (job_of_spec b u (u_start_job up) (u_start_group up)) jss in
         match jss with [] => (s, assertion) | _ =>
+        if negb (contiguous (map js_id jss)) then (s, bad_request) else    (* validate_and_clean_jobs *)
+        if negb (forallb (spec_ok s b up) jss) then (s, bad_request) else
         (* INSERT INTO jobs: one multi-row statement, rows processed in order; for each row the BEFORE INSERT
            trigger (cancelled group -> SIGNAL) runs first, then the primary key (a duplicate means "bunch already
            inserted": the handler returns normally and nothing is inserted), then the foreign key to job_groups *)
@@ -582,6 +603,7 @@ Definition do_delete_batch (s : state) (b : Z) : state * res :=
 (* ------------------------------------------------------------------ instances *)
 
 Definition do_new_instance (s : state) (name ic cores : Z) (pool : bool) : state * res :=
+  if (ic <? 0) || negb ((0 <? cores) && (cores mod 1000 =? 0)) then (s, bad_request) else   (* known inst_coll (unknown = -1), whole cores *)
   match find_inst s name with
   | Some _ => (s, sql_error 1062)
   | None => (s <| insts ::= fun l => l ++ [mkInst name IPending cores cores ic pool] |>, ok [])
@@ -780,6 +802,8 @@ Fixpoint merge_resources (rs : list (Z * Z)) : list (Z * Z) :=
   end.
 
 Definition do_add_resources (s : state) (b j a : Z) (rs : list (Z * Z)) : state * res :=
+  if is_nil rs then (s, ok []) else
+  if existsb (fun rq => fst rq <? 0) rs then (s, other_err) else    (* unknown resource name: KeyError *)
   match find_attempt s b j a with
   | None => (s, sql_error 1452)       (* foreign key attempt_resources -> attempts *)
   | Some _ => (fold_left (add_one_resource b j a) (merge_resources rs) s, ok [])
